@@ -10,7 +10,7 @@ from .evidence import Evidence, match_known, save_replay
 
 FAMS_Q = ["chain3p", "diamondp", "pullchain2", "pullring", "pullringtail", "wsum", "wsumback", "pulltwice", "trigger", "staticin"]
 FAMS_T = FAMS_Q
-EXTENDED = {"avail", "served", "served-notify", "choice", "update-raised", "delay-shift", "canon",
+EXTENDED = {"avail", "served", "served-as-modelled", "update-raised-as-modelled", "served-notify", "choice", "update-raised", "delay-shift", "canon",
             "false-cycle", "false-cycle-zone", "cycle-not-reported"}
 
 
